@@ -127,6 +127,54 @@ fn sweep_chunk(cfg: &Cfg, lens: &[u32]) -> serde_json::Value {
 	}
 }
 
+/// The same values through the recovery path: committed, logged and flushed but never applied; the directory is copied
+/// as a crash would leave it and the copy is opened: every record goes through replay (validation + enactment), then every
+/// value is read back. (Replay has size checks of its own that the live pipeline does not pass through.)
+fn replay_chunk(cfg: &Cfg, lens: &[u32]) -> serde_json::Value {
+	let c = Config::new(vec![cfg.col.clone()]);
+	let dir = worker_dir();
+	let img = dir.with_extension("img");
+	let r = crate::interpose::fresh_thread(|| -> Result<u64, (String, Fail)> {
+		let mut ex = Exec::new(&dir, &c, Arc::new(vec![vec![]])).map_err(|f| ("open".to_string(), f))?;
+		let mut all: Vec<(Vec<u8>, u32, u8)> = vec![];
+		for chunk in lens.chunks(48) {
+			let mut tx: Tx = vec![];
+			for l in chunk {
+				for kind in [0u8, 1] {
+					tx.push((0, Op::Set(key_for(&cfg.col, *l, kind as u32), val_for(*l, kind))));
+					all.push((key_for(&cfg.col, *l, kind as u32).bytes(), *l, kind));
+				}
+			}
+			ex.commit(&tx).map_err(|f| (format!("commit of lengths {:?}", chunk), f))?;
+			while ex.digest().commit_queue_len > 0 {
+				ex.apply(&Ev::Stage(St::P)).map_err(|f| (format!("logging lengths {:?}", chunk), f))?;
+			}
+			ex.apply(&Ev::Stage(St::F)).map_err(|f| (format!("flushing the log of lengths {:?}", chunk), f))?;
+		}
+		wipe_dir(&img);
+		for e in std::fs::read_dir(&dir).unwrap().filter_map(|e| e.ok()) {
+			if e.file_name() != "lock" {
+				std::fs::copy(e.path(), img.join(e.file_name())).map_err(|e| ("copying the directory".to_string(), Fail::new("machinery", e.to_string())))?;
+			}
+		}
+		let mut n = 0u64;
+		let mut ex2 = Exec::detached(&img, &c, Arc::new(vec![vec![]]));
+		ex2.open(false).map_err(|f| ("opening the crash image (replay of the flushed logs)".to_string(), f))?;
+		for (k, l, kind) in all.iter() {
+			check_one(&ex2, k, Some((*l, *kind))).map_err(|f| (format!("after replay of its flushed log record: length {} kind {}", l, kind), f))?;
+			n += 1;
+		}
+		ex2.close().map_err(|f| ("close".to_string(), f))?;
+		ex.close().map_err(|f| ("close".to_string(), f))?;
+		Ok(n)
+	});
+	let _ = std::fs::remove_dir_all(&img);
+	match r {
+		Ok(n) => json!({"n": n}),
+		Err((what, f)) => fail_json(cfg, &what, &f),
+	}
+}
+
 fn check_one(ex: &Exec, key: &[u8], exp: Option<(u32, u8)>) -> Result<(), Fail> {
 	let db = ex.db();
 	let r = std::panic::catch_unwind(std::panic::AssertUnwindSafe(|| (db.get(0, key), db.get_size(0, key))));
@@ -260,16 +308,18 @@ pub fn run(tier: &str) -> ! {
 	}
 	let big: Vec<u32> = vec![(1 << 20) - 1, 1 << 20, (1 << 20) + 1, 3 << 20];
 	let per = if thorough { 400 } else { 250 };
-	let mut jobs: Vec<(usize, Vec<u32>)> = vec![];
+	let mut jobs: Vec<(usize, Vec<u32>, bool)> = vec![];
 	for (ci, _) in configs.iter().enumerate() {
 		for ch in lens.chunks(per) {
-			jobs.push((ci, ch.to_vec()));
+			jobs.push((ci, ch.to_vec(), false));
+			jobs.push((ci, ch.to_vec(), true));
 		}
-		jobs.push((ci, big.clone()));
+		jobs.push((ci, big.clone(), false));
+		jobs.push((ci, big.clone(), true));
 	}
 	let items = par_map(jobs.len(), nthreads(), "c06", |i| {
-		let (ci, l) = &jobs[i];
-		let j = sweep_chunk(&configs[*ci], l);
+		let (ci, l, replay) = &jobs[i];
+		let j = if *replay { replay_chunk(&configs[*ci], l) } else { sweep_chunk(&configs[*ci], l) };
 		let stop = j.get("bad").is_some();
 		(serde_json::to_vec(&j).unwrap(), stop)
 	});
@@ -360,7 +410,7 @@ pub fn run(tier: &str) -> ! {
 	run.set("read_backs", json!(reads));
 	run.set("overwrite_sequences", json!(nseq));
 	run.set("configs", json!(configs.iter().map(|c| c.name.clone()).collect::<Vec<_>>()));
-	run.set("rule", json!(format!("length sweep: {} lengths ({}) x 2 content classes (incompressible LCG / compressible) x {} configurations; each value is committed, driven to the tables, read (get, get_size), and read again after a reopen; plus lengths 2^20-1, 2^20, 2^20+1, 3*2^20. Overwrite sequences: all ordered {} of 14 representative size classes on one key, then removal, reopen, re-insertion; after that no value table's fill mark may exceed what the largest single value of the sequence needs (storage released and reused). distinct = (config, length, class) values + sequences",
+	run.set("rule", json!(format!("length sweep: {} lengths ({}) x 2 content classes (incompressible LCG / compressible) x {} configurations; each value is committed, driven to the tables, read (get, get_size), and read again after a reopen; and, in a second database, committed, logged and flushed only, the directory copied as a crash leaves it, the copy opened (replay) and the value read; plus lengths 2^20-1, 2^20, 2^20+1, 3*2^20. Overwrite sequences: all ordered {} of 14 representative size classes on one key, then removal, reopen, re-insertion; after that no value table's fill mark may exceed what the largest single value of the sequence needs (storage released and reused). distinct = (config, length, class) values + sequences",
 		lens.len(), if thorough { "every length 0..=70000" } else { "every length within +-1 of a size-class boundary or +-2 of a part boundary for any header layout, plus every 97th length" }, configs.len(), if thorough { "triples (third element every other class)" } else { "pairs" })));
 	run.sample(json!({"config": "hash/none", "length": 4, "note": "largest value of the first size class with a 26-byte key and 2-byte size"}));
 	run.sample(json!({"config": "hash/lz4-default", "sequence": "[40000 incompressible] -> [5000 compressible] -> removed -> [40000] again"}));
